@@ -231,3 +231,54 @@ func (k *KeyData) UnmarshalJSON(b []byte) error {
 	k.Value = v
 	return nil
 }
+
+// applyRequestJSON is the wire form of ApplyRequest. Command arguments and keys are arbitrary bytes,
+// which plain JSON strings cannot carry (invalid UTF-8 is replaced), so they travel encoded.
+type applyRequestJSON struct {
+	Type         string   `json:"Type"`
+	ServerID     string   `json:"ServerID"`
+	ConnectionID string   `json:"ConnectionID"`
+	Protocol     int      `json:"Protocol"`
+	Database     int      `json:"Database"`
+	CMD          []string `json:"CMD"`
+	Key          string   `json:"Key"`
+}
+
+func (r ApplyRequest) MarshalJSON() ([]byte, error) {
+	w := applyRequestJSON{
+		Type: r.Type, ServerID: r.ServerID, ConnectionID: r.ConnectionID, Protocol: r.Protocol, Database: r.Database,
+		Key: EncodePersistedString(r.Key),
+	}
+	if r.CMD != nil {
+		w.CMD = make([]string, len(r.CMD))
+		for i, arg := range r.CMD {
+			w.CMD[i] = EncodePersistedString(arg)
+		}
+	}
+	return json.Marshal(w)
+}
+
+func (r *ApplyRequest) UnmarshalJSON(b []byte) error {
+	var w applyRequestJSON
+	if err := json.Unmarshal(b, &w); err != nil {
+		return err
+	}
+	key, err := DecodePersistedString(w.Key)
+	if err != nil {
+		return fmt.Errorf("apply request key: %w", err)
+	}
+	var cmd []string
+	if w.CMD != nil {
+		cmd = make([]string, len(w.CMD))
+		for i, arg := range w.CMD {
+			if cmd[i], err = DecodePersistedString(arg); err != nil {
+				return fmt.Errorf("apply request argument %d: %w", i, err)
+			}
+		}
+	}
+	*r = ApplyRequest{
+		Type: w.Type, ServerID: w.ServerID, ConnectionID: w.ConnectionID, Protocol: w.Protocol, Database: w.Database,
+		CMD: cmd, Key: key,
+	}
+	return nil
+}
